@@ -2,6 +2,7 @@ package pbar
 
 import (
 	"io"
+	"sync"
 
 	"github.com/vbauerster/mpb/v8"
 )
@@ -38,6 +39,8 @@ type bar struct {
 	total int64
 	name  string
 	unit  int
+	// mutex guards the lazy creation of b: Incr is called from several goroutines
+	mutex sync.Mutex
 }
 
 func newBar(c *Container, total int64, name string, unit int) *bar {
@@ -50,6 +53,8 @@ func newBar(c *Container, total int64, name string, unit int) *bar {
 }
 
 func (b *bar) ensureInternalBar() {
+	b.mutex.Lock()
+	defer b.mutex.Unlock()
 	if b.b != nil {
 		return
 	}
